@@ -11,12 +11,12 @@
    exactly the same observations and does not panic, on every PlatformOK platform.
 
    Ops covered (= every op the specification machine interprets): new, update, write, finalize,
-   finalize_xof, count, clone, reset, set_input_offset, finalize_non_root, the one-shot functions,
+   finalize_xof, update_reader (scripted readers), count, clone, reset, set_input_offset, finalize_non_root, the one-shot functions,
    merge_subtrees_{non_root,root,root_xof}, hash_derive_key_context, the OutputReader ops
    (new, fill, read, position, set_position, seek, clone) and the RustCrypto trait ops
    (update, reset, finalize, finalize_reset, finalize_xof, finalize_xof_reset, KeyInit::new,
    Digest::new).  Not interpreted by the specification machine (it answers None, so the theorem
-   says nothing about them): update_reader, Debug, Zeroize. *)
+   says nothing about them): Debug, Zeroize. *)
 From Coq Require Import NArith ZArith List Bool.
 From V Require Import Base.Res Base.Word Spec.Compress Spec.Tree Spec.Blake3 Model.Platform Model.RsChunk
   Model.RsHasher Model.RsXof Model.RsIo Model.Machine Model.SpecMachine
